@@ -45,7 +45,7 @@ class Flow:
         r = self.e.fuzz
         if r is not None and flags == PSH | ACK and r.random() < 0.12:
             # a segment "carrying PSH and ACK" is a data segment whatever else is set (FIN: write-and-half-close clients)
-            flags |= r.choice([FIN, FIN, URG, ECE, CWR, FIN | URG, ECE | CWR, FIN | ECE | CWR | URG])
+            flags |= r.choice([FIN, FIN, URG, ECE, CWR, FIN | URG, ECE | CWR, FIN | ECE | CWR | URG, 0x100, 0x100 | ECE])          # (0x100: the NS / AE bit)
         return self.e.tcp(self.sp, self.dp, self.seq if seq is None else seq, self.ack if ack is None else ack,
                           flags, payload)
 
